@@ -23,6 +23,7 @@
 #include "panda_getopt_long.h"
 #include "preprocess_argv.h"
 #include "vector_string.h"
+#include "verif_trace.h"
 
 #include <algorithm>
 #include <set>
@@ -73,6 +74,17 @@ static struct option long_options[] = {
   { "init", required_argument, nullptr, CO_init },
   { nullptr }
 };
+
+#ifdef INTERROGATE_VERIF_TRACE
+// JSON array of the strings in the given set (verification trace hooks only).
+static string verif_set_json(const std::set<string> &strings) {
+  string result = "[";
+  for (const string &str : strings) {
+    result += (result.size() > 1 ? "," : "") + VERIF_Q(str);
+  }
+  return result + "]";
+}
+#endif  // INTERROGATE_VERIF_TRACE
 
 /*
 static string
@@ -218,6 +230,12 @@ int write_python_table_native(std::ostream &out) {
     }
   }
 
+#ifdef INTERROGATE_VERIF_TRACE
+  for (const auto &dep : dependencies) {
+    VERIF_EVENT("{\"e\":\"ModDep\",\"lib\":" << VERIF_Q(dep.first) << ",\"deps\":" << verif_set_json(dep.second) << "}");
+  }
+#endif  // INTERROGATE_VERIF_TRACE
+
   // Now add the libraries in their proper ordering, based on dependencies.
   vector_string libraries;
   while (libraries.size() < dependencies.size()) {
@@ -240,6 +258,7 @@ int write_python_table_native(std::ostream &out) {
         if (std::find(libraries.begin(), libraries.end(), library_name) == libraries.end()) {
           libraries.push_back(library_name);
           added_any = true;
+          VERIF_EVENT("{\"e\":\"ModPlace\",\"lib\":" << VERIF_Q(library_name) << "}");
         }
       }
     }
@@ -248,6 +267,7 @@ int write_python_table_native(std::ostream &out) {
       // Oh dear, we must have hit a circular dependency.  Go through the
       // remaining libraries to figure it out and print it.
       cerr << "Circular dependency between libraries detected:\n";
+      VERIF_EVENT("{\"e\":\"ModReport\"}");
       for (auto it = dependencies.begin(); it != dependencies.end(); ++it) {
         const string &library_name = it->first;
         std::set<string> &deps = dependencies[library_name];
@@ -283,6 +303,7 @@ int write_python_table_native(std::ostream &out) {
         // We have to arbitrarily break one of the dependencies in order to be
         // able to proceed.  Break the first dependency.
         dependencies[cycle[0]].erase(cycle[1]);
+        VERIF_EVENT("{\"e\":\"ModBreak\",\"from\":" << VERIF_Q(cycle[0]) << ",\"to\":" << VERIF_Q(cycle[1]) << ",\"len\":" << cycle.size() << "}");
       }
     }
   }
